@@ -42,7 +42,7 @@ func vDefaultArgs(spec *OpSpec) []vArg {
 		"app_box_put":    {uint64(vAppID), []byte("3"), []byte("0123456789")},
 		"app_box_splice": {uint64(vAppID), []byte("3"), uint64(0), uint64(4), []byte{1, 2, 3, 4}},
 		"app_box_resize": {uint64(vAppID), []byte("3"), uint64(5)},
-		"json_ref": {[]byte(`{"k": 7}`), []byte("k")}, "base64_decode": {[]byte("MTIz")},
+		"json_ref":       {[]byte(`{"k": 7}`), []byte("k")}, "base64_decode": {[]byte("MTIz")},
 		"divw": {uint64(1), uint64(2), uint64(3)}, "divmodw": {uint64(0), uint64(1), uint64(0), uint64(1)},
 		"substring3": {[]byte("3456"), uint64(0), uint64(2)}, "extract3": {[]byte("3456"), uint64(0), uint64(2)},
 		"extract_uint16": {[]byte("3456"), uint64(0)}, "extract_uint32": {[]byte("34567"), uint64(1)},
@@ -274,10 +274,6 @@ func vRunX(out *vOut, st map[string]int, v uint64, mode RunMode, prog []byte, tp
 	st[fmt.Sprintf("x_check_class_%d", chk)]++
 }
 
-func vLsigArgs() [][]byte {
-	return [][]byte{[]byte("aoeu"), []byte("aoeu"), []byte("aoeu2"), []byte("aoeu3")}
-}
-
 func TestVerifC34(t *testing.T) {
 	out := vOpen("cases_c34.txt")
 	defer out.Close()
@@ -345,6 +341,17 @@ func TestVerifC34(t *testing.T) {
 	st["x_cases"] = nx
 
 	// ---- (b) random branch layouts
+	// directed stream: extreme immediates (shared with C31), every version, both modes
+	nbe := 0
+	for v := uint64(0); v <= LogicVersion; v++ {
+		for _, prog := range vExtremePrograms(v) {
+			for _, mode := range []RunMode{ModeSig, ModeApp} {
+				vRunBProg(out, st, v, mode, LogicVersion, prog)
+				nbe++
+			}
+		}
+	}
+	st["b_extreme_cases"] = nbe
 	nb := vEnvInt("VERIF_C34_B", 3000)
 	for i := 0; i < nb; i++ {
 		vRunB(out, st, rnd)
@@ -595,7 +602,10 @@ func vRunB(out *vOut, st map[string]int, r *vRand) {
 	if r.Intn(8) == 0 {
 		lsv = 12
 	}
-	prog := vGenLayout(r, v)
+	vRunBProg(out, st, v, mode, lsv, vGenLayout(r, v))
+}
+
+func vRunBProg(out *vOut, st map[string]int, v uint64, mode RunMode, lsv uint64, prog []byte) {
 	const budget = 250
 	envc := vNewEnv(mode, lsv, prog, vLsigArgs(), budget, nil)
 	ckb := envc.remaining()
